@@ -6,25 +6,31 @@
   Timed}.lean.  Quantification as in C01: all interleavings, thread counts, capacities 2^bits, client
   programs within the contract, `Ver16Faithful` steps.
 
-  What is proved, and what is not:
-    bq_sleep_sound        proved (futex level, no assumption on pairing): a sleeper's slot still
-                          carries the waiter bit, or a thread is committed to wake_all on that slot.
-    bq_guard_stable       proved.
-    bq_no_stuck_partial   proved: no cyclic wait — whenever a thread is in a blocking wait, some thread
-                          inside an operation is not waiting (and its next action is enabled), or some
-                          waiter's awaited version is present, or a slot is ready for a ticket no call
-                          has requested yet (the client owes the matching operation: unbalanced program).
-    bq_timed_bound        proved: remaining timeout ≤ timeout of the call, expiry test ends the wait.
-    NOT proved (kept visible below as `bq_no_stuck` / `bq_wake_pending`): that a sleeper whose awaited
-    version is present *while the waiter bit is still set* is owed a wake-up by the batch waker that
-    stored that version (relaxed 16-bit store; seq_cst fence; re-load; CAS-clear; wake_all), under the
-    pairing rule USE_FUTEX_WAIT ⇒ USE_FUTEX_WAKE on the opposite side.  For the single-element waker
-    this is `bq_sleep_sound` (the exchange returns and clears the waiter bit atomically).  The batch
-    case is covered by the correspondence (lock-step replay: the implementation performs every wake-up
-    of the model; VRT deadlock verdicts on balanced programs incl. weak-memory mode) and by the
-    generated obligations `gen_wake_code` / `gen_batch_wake_fence`.
+  Theorems (all proved, no partials):
+    bq_sleep_sound        futex level, no assumption on pairing: a sleeper's slot still carries the waiter
+                          bit, or a thread is committed to wake_all on that slot.
+    bq_wake_pending       under the pairing rules (invariant `bq_pairing`): a sleeper whose awaited version is
+                          present while the waiter bit is still set is owed a wake-up by a thread committed to
+                          wake_all, or by the waking batch releaser that stored that version (relaxed 16-bit
+                          store; seq_cst fence; re-load; CAS-clear; wake_all) and has not finished the re-load /
+                          CAS / wake of that slot.
+    bq_guard_stable       the awaited version stays until the waiter acts.
+    bq_no_cyclic_wait     the chain "my slot is the turn of a ticket held by ..." ends in a thread that is not
+                          waiting, in a waiter whose version is present, or in a ticket the client did not request.
+    bq_no_stuck           safety form of deadlock freedom: whenever some thread is inside an operation, some
+                          thread is Runnable (inside an operation and not in a blocking wait — its next action is
+                          enabled, `bq_active_enabled` — or in a blocking wait whose version is present and not
+                          asleep), or a slot is ready for a ticket that no call has requested yet (unbalanced
+                          program: the queue waits for the client).  Fairness of the scheduler is assumed, not
+                          proved (no temporal logic): the theorems say a step is always available and
+                          `bq_guard_stable` says it stays useful.
+    bq_timed_bound        remaining timeout ≤ timeout of the call; expiry test ends the wait.
+  Not proved: `bq_wake_view` (DESIGN B-level: the batch waker against the waiter over the View memory model).
+  All executions here are sequentially consistent interleavings; the seq_cst fence of the batch waker is tied by
+  `gen_batch_wake_fence`, weak-memory behaviour is exercised by the VRT view-mode pass of the check.
 -/
 import Babylon.BQ.Spec
+import Babylon.BQ.WakePending
 import Babylon.BQ.Skel
 import Babylon.BQ.Examples
 
@@ -80,15 +86,37 @@ theorem bq_guard_stable (c : Cfg) (y y' : Sys) (hy : ReachF c y) (h : StepF c y 
 theorem bq_version_monotone (c : Cfg) (y y' : Sys) (hy : ReachF c y) (h : StepF c y y') (sl : Nat) :
     y.s.ver sl ≤ y'.s.ver sl := step_ver_mono (inv_reach hy) h sl
 
-/-- **bq_no_stuck_partial** (no cyclic wait).  If some thread is inside a blocking wait then
+/-- **bq_pairing.**  The template flags carried by every thread agree with the run's pairing configuration: a
+thread that may futex-wait for a ticket of side `sd` runs where every release of the opposite side wakes, and a
+thread that may release on `sd` without waking runs where `c.wakes sd = false` (documented pairing rules,
+enforced on calls by `Call.paired`). -/
+theorem bq_pairing (c : Cfg) (y : Sys) (h : ReachF c y) (t : Nat) (sd : Side) :
+    ((y.s.pc t).mf sd → c.wakes sd.other = true) ∧ ((y.s.pc t).nw sd → c.wakes sd = false) := flaginv_reach h t sd
+
+/-- **bq_wake_pending.**  A sleeper (not the timed one) whose awaited version is present while the waiter bit of its
+slot is still set is owed a wake-up: some thread is at `wake_all` for that slot, or is the waking batch releaser that
+stored exactly that version and has not finished `wakeup_waiters` for that slot — covering every interleaving of the
+waiter's CAS-registration / futex_wait with the waker's store / fence / re-load / CAS-clear. -/
+theorem bq_wake_pending (c : Cfg) (y : Sys) (h : ReachF c y) (t : Nat) (x : WCtx) (cur : Nat)
+    (hp : y.s.pc t = .wait x (.asleep cur)) (hnt : x.isTimed = false)
+    (hv : y.s.ver (x.slot c) = x.E c) (hb : y.s.wbit (x.slot c) = true) :
+    ∃ u, (y.s.pc u).strong c (x.slot c) ∨ (y.s.pc u).cond c (x.slot c) (x.E c) := s2_reach h t x cur hp hnt hv hb
+
+/-- **bq_no_cyclic_wait.**  If some thread is inside a blocking wait then
 (1) a thread that is inside an operation is *not* in a blocking wait, or
 (2) some blocked thread's awaited version is present, or
-(3) a slot is ready for a ticket that no call has requested yet (the program is not balanced yet).
-Missing for the full `bq_no_stuck`: in case (2) a *sleeping* waiter is owed a wake-up (`bq_wake_pending`). -/
-theorem bq_no_stuck_partial (c : Cfg) (y : Sys) (h : ReachF c y) (t sl E : Nat)
+(3) a slot is ready for a ticket that no call has requested yet (the program is not balanced yet). -/
+theorem bq_no_cyclic_wait (c : Cfg) (y : Sys) (h : ReachF c y) (t sl E : Nat)
     (hw : (y.s.pc t).waitingOn c = some (sl, E)) : Progress c y := no_cyclic_wait (inv_reach h) E t sl hw
 
-/-- in case (1) the thread can indeed move: its next action (or its return) is enabled -/
+/-- **bq_no_stuck.**  No reachable state has every unfinished thread asleep, or spinning on a version nobody will
+produce: if some thread is inside an operation, then some thread is `Runnable`, or a slot is ready for a ticket that no
+call has requested yet (for programs whose pushes and pops balance, the missing operation is still to be issued by the
+client).  In particular a balanced program never reaches VRT's deadlock verdict along a path of the model. -/
+theorem bq_no_stuck (c : Cfg) (y : Sys) (h : ReachF c y) (t : Nat) (ht : y.s.pc t ≠ .idle) :
+    (∃ u, Runnable c y u) ∨ (∃ sd i, y.s.idx sd ≤ i ∧ y.s.ver (slotOf c i) = expVer c sd i) := no_stuck h t ht
+
+/-- a thread that is inside an operation and not in a blocking wait can indeed move: its next action (or its return) is enabled -/
 theorem bq_active_enabled (c : Cfg) (y : Sys) (u : Nat) (hne : y.s.pc u ≠ .idle) (hw : (y.s.pc u).waitingOn c = none) :
     ∃ y', Step c y y' := active_enabled c y u hne hw
 
@@ -99,18 +127,6 @@ was completed, i.e. an element is queued that nobody asked for yet. -/
 theorem bq_unissued_pop_means_element (c : Cfg) (y : Sys) (h : ReachF c y) (i : Nat)
     (hv : y.s.ver (slotOf c i) = expVer c .pop i) : y.s.pushedV i = some (y.s.val (slotOf c i)) :=
   (inv_reach h).valRd i hv
-
-/-
-  Full statements not proved (see the header):
-
-  theorem bq_wake_pending (c) (y) (h : ReachF c y) (t sl) (x cur) :
-      y.s.pc t = .wait x (.asleep cur) → x.isTimed = false → y.s.ver (x.slot c) = x.E c →
-      ∃ u, (y.s.pc u).strong c (x.slot c) ∨ (u is a batch releaser with USE_FUTEX_WAKE that stored x.E c into the slot
-                                             and has not finished wakeup_waiters for it)
-
-  theorem bq_no_stuck (c) (y) (h : ReachF c y) : (∃ t, y.s.pc t ≠ .idle) →
-      (∃ u y', u's step leads to y' and is not a futile wait iteration) ∨ (a needed ticket is unissued)
--/
 
 /-! ### timed exclusive pop -/
 /-- **bq_timed_bound.**  The relative timeout a thread in `try_pop_n_exclusively_until` still waits with
@@ -142,7 +158,7 @@ theorem bq_refines_spec (c : Cfg) (y y' : Sys) (hy : ReachF c y) (h : StepF c y 
 example : ∃ y t, ReachF exCfg y ∧ (y.s.pc t).asleepOn exCfg 0 ∧ y.s.wbit 0 = true :=
   ⟨sl5, 1, sl5_reach, ⟨xw, 65536, rfl, rfl⟩, rfl⟩
 /-- that consumer is in a blocking wait for version 1 of slot 0 (premise of `bq_no_stuck_partial`); here case (3)
-applies: slot 0 is ready for push ticket 0, which nobody has requested -/
+applies: slot 0 is ready for push ticket 0, which nobody has requested (premises of `bq_no_cyclic_wait`, `bq_no_stuck`) -/
 example : (sl5.s.pc 1).waitingOn exCfg = some (0, 1) ∧ sl5.s.idx .push ≤ 0 ∧ sl5.s.ver (slotOf exCfg 0) = expVer exCfg .push 0 :=
   ⟨rfl, Nat.le_refl _, rfl⟩
 
